@@ -70,6 +70,13 @@ def check(proto, data):
         if proto.peer_manager.failures[0] != ('1.2.3.4', 4444):
             return 'VIOLATION: failure recorded for the wrong sender'
         return 'ok-dropped'
+    # what reaches a handler is a well-formed message: the handlers use both ids as dictionary keys (sent_messages, routing table,
+    # the lru-cached make_kademlia_peer), so an id that is not a byte string of the protocol's length raises out of the real handler
+    message = proto.handled[0][1]
+    if type(message.rpc_id) is not bytes or len(message.rpc_id) != 20:
+        return 'VIOLATION: a datagram whose rpc id is not a 20-byte string is handed to the handler (unhashable ids raise TypeError there)'
+    if type(message.node_id) is not bytes or len(message.node_id) != 48:
+        return 'VIOLATION: a datagram whose node id is not a 48-byte string is handed to the handler (unhashable ids raise TypeError there)'
     return 'ok-' + proto.handled[0][0]
 
 
@@ -138,6 +145,28 @@ def mutate(vm, kind, nmut, lo, hi):
         vm.assume(b != data[k])
         data = data[:k] + bytes([b]) + data[k + 1:]
     return check(StubProtocol(), data)
+
+
+def typed_field(vm, kind):
+    """A valid datagram whose rpc id or node id is replaced by a bencoded container with as many items as the id has bytes
+    (or one fewer / more): a list of integers, a list of strings, a list of lists, or a dictionary."""
+    data = valid_datagram(kind)
+    which = vm.pick('field', 2)
+    ident = (RPC_ID, NODE_ID)[which]
+    encoded = b'%d:' % len(ident) + ident
+    at = data.index(encoded)
+    n = len(ident) + vm.pick('items_minus_length_plus_one', 3) - 1
+    shape = vm.pick('replacement', 4)
+    first = vm.new_int('first_digit', 48, 57)
+    if shape == 0:
+        body = b'l' + b'i' + bytes([first]) + b'e' + b'i7e' * (n - 1) + b'e'
+    elif shape == 1:
+        body = b'l' + b'1:' + bytes([first]) + b'1:x' * (n - 1) + b'e'
+    elif shape == 2:
+        body = b'l' + b'le' * n + b'e'
+    else:
+        body = b'd' + b''.join(b'2:%02di1e' % j for j in range(n)) + b'e'
+    return check(StubProtocol(), data[:at] + body + data[at + len(encoded):])
 
 
 def truncate(vm, kind):
@@ -400,6 +429,10 @@ def jobs(tier):
                                 loop_bound=ln + 3, max_depth=40, cost=300 if m == 1 else 5000,
                                 bounds=dict(valid_datagram=kind, mutated_bytes=m, positions=f'[{lo},{hi})',
                                             replacement='arbitrary byte'), watchdog=3.0))
+    for kind in ('ping', 'pong', 'error') if tier == 'quick' else KINDS:
+        out.append(dict(name=f'typed-id-{kind}', family='typed', fn='typed_field', args=(kind,), loop_bound=400, max_depth=60, cost=40,
+                        bounds=dict(valid_datagram=kind, replaced='rpc id or node id', by='list of ints / strings / lists or a dictionary',
+                                    items='id length - 1, id length, id length + 1'), watchdog=3.0))
     for opener in (b'l', b'd', b'li0e', b'd1:a'):
         out.append(dict(name=f'nested-{opener.decode()}', family='nested', fn='nested', args=(opener, 1100, 2),
                         loop_bound=4000, max_depth=150, cost=50,
